@@ -1,10 +1,12 @@
 (* Properties_C05 -- floating-point literals read as the correctly rounded binary64 value.
    Statements only.  PARTIAL: proved for the fast path (the part of the conversion the library
-   implements itself); the strtod fallback is libc's, modelled by Floats.dec2fl / strtod_model and
+   implements itself) -- abstractly (C05_fast_path) and end to end at the token level for plain decimal fractions
+   of at most 15 digits (C05_decimal_fraction_literal); the strtod fallback is libc's, modelled by Floats.dec2fl / strtod_model and
    validated against glibc and Python's float() on every run (correspondence + oracle). *)
 From Coq Require Import ZArith Reals SpecFloat List Bool String.
 From Flocq Require Import Core BinarySingleNaN.
-From Verif Require Import Lanes Common Floats FastPath.
+From Coq.Strings Require Import Byte.
+From Verif Require Import Lanes Common Values Scan Floats Numbers FastPath NumLiteral NumFloatLit.
 Import ListNotations.
 Local Open Scope Z_scope.
 
@@ -25,10 +27,30 @@ Theorem C05_tables_exact :
   fastpath_literals = [0; 1; 22; 9007199254740991].
 Proof. exact (conj pos_table_exact (conj neg_table_is_pos_table (conj (proj1 fastpath_ops) (conj (proj2 fastpath_ops) fast_path_guards)))). Qed.
 
+(* ---- the literal scanner, end to end (token level) ---- *)
+(* [sign] d1..dk . f1..fn with at most 15 digits in all, followed by the end of the input or a number delimiter, reads
+   under EVERY flag set as a float whose value is the binary64 number nearest (ties to even) to the decimal value of
+   the literal; the cursor ends right behind the last digit *)
+Theorem C05_decimal_fraction_literal : forall (c : cfg) (m : mem) (e start : N) (neg : bool) (sign ds1 ds2 : list byte),
+  (sign = [] /\ neg = false \/ sign = ["-"%byte] /\ neg = true \/ sign = ["+"%byte] /\ neg = false) ->
+  ds1 <> [] -> forallb is_dig ds1 = true -> (hd "0"%byte ds1 <> "0"%byte \/ ds1 = ["0"%byte]) ->
+  ds2 <> [] -> forallb is_dig ds2 = true -> (List.length ds1 + List.length ds2 <= 15)%nat ->
+  let text := sign ++ ds1 ++ "."%byte :: ds2 in
+  let q := (start + N.of_nat (List.length text))%N in
+  (q <= e)%N -> slice m start (List.length text) = text -> ends_at m e q ->
+  read_number c m e start = NVal (VFloat (fraction_value neg ds1 ds2)) q /\
+  SF2R radix2 (fraction_value neg ds1 ds2) = rnd (dec_real neg (positional (ds1 ++ ds2) 0) (- Z.of_nat (List.length ds2))).
+Proof.
+  intros c m e start neg sign ds1 ds2 H1 H2 H3 H4 H5 H6 H7 text q H8 H9 H10.
+  split; [exact (read_number_decimal_fraction c m e start neg sign ds1 ds2 H1 H2 H3 H4 H5 H6 H7 H8 H9 H10)
+         |exact (fraction_value_correctly_rounded neg ds1 ds2 H3 H6 H7)].
+Qed.
+
 (* non-vacuity: 0.3 = 3 * 10^-1 on the fast path is 0x3FD3333333333333 (not ...34) *)
 Example C05_example : sf_to_bits (fast_path 3 (-1) false) = 4599075939470750515
                       /\ fast_path_ok 3 (-1) = true.
 Proof. vm_compute. split; reflexivity. Qed.
 
+Print Assumptions C05_decimal_fraction_literal.
 Print Assumptions C05_fast_path.
 Print Assumptions C05_tables_exact.
